@@ -107,6 +107,9 @@ type CtlSpec struct {
 	// NoValue sends/creates the typed control without any value (legal: the
 	// value is OPTIONAL); only for paging / behera / vchu_warn.
 	NoValue bool `json:"no_value,omitempty"`
+	// Zeros: vchu_warn only, independent encoder only: the decimal string carries this many leading zeros
+	// ("0300" is 300: the value is a decimal string, and go-ldap reads it as such)
+	Zeros int `json:"zeros,omitempty"`
 }
 
 var typedOIDs = map[string]bool{
@@ -130,6 +133,9 @@ func genCtl() *rapid.Generator[CtlSpec] {
 			c.N = rapid.Int64Range(0, 8).Draw(t, "err")
 		case "vchu_warn":
 			c.N = rapid.OneOf(rapid.SampledFrom([]int64{0, 1, -1, 86400, 9223372036854775807, -9223372036854775808}), rapid.Int64()).Draw(t, "expire")
+			if rapid.IntRange(0, 2).Draw(t, "zeros") == 0 {
+				c.Zeros = rapid.IntRange(1, 12).Draw(t, "nzeros")
+			}
 		case "managedsait":
 			c.Crit = rapid.Bool().Draw(t, "crit")
 		case "generic":
@@ -172,7 +178,15 @@ func (c CtlSpec) Wire() wire.Control {
 		if c.NoValue {
 			return wire.Control{OID: wire.OIDVChuWarning}
 		}
-		return wire.Control{OID: wire.OIDVChuWarning, HasValue: true, Value: []byte(strconv.FormatInt(c.N, 10))}
+		digits := strconv.FormatInt(c.N, 10)
+		if c.Zeros > 0 {
+			if digits[0] == '-' {
+				digits = "-" + strings.Repeat("0", c.Zeros) + digits[1:]
+			} else {
+				digits = strings.Repeat("0", c.Zeros) + digits
+			}
+		}
+		return wire.Control{OID: wire.OIDVChuWarning, HasValue: true, Value: []byte(digits)}
 	case "managedsait":
 		return wire.Control{OID: wire.OIDManageDsaIT, Crit: c.Crit}
 	case "ms_notify":
